@@ -120,6 +120,36 @@ SDivRem(a, b) ==
               [] IsNeg(a) /\ IsNeg(b)   -> <<q, WNeg(r), NegOv(r)>>
 
 \* ---------------------------------------------------------------------------------------------
+\* signed rounding divisions on top of div_rem_unchecked (src/bint/mod.rs, overflowing.rs, checked.rs); rhs # 0 and
+\* not MIN / -1.  `add` / `sub` are the operators (they panic on overflow with debug assertions): each result is
+\* <<pattern, some operator overflowed>>.
+SDivFloor(a, b) == LET qr == SDivRem(a, b)
+                   IN IF IsZeroArr(qr[2]) \/ IsNeg(a) = IsNeg(b) THEN <<qr[1], qr[3]>>
+                      ELSE LET r == SSub(qr[1], One) IN <<r[1], qr[3] \/ r[2]>>
+SDivCeil(a, b) == LET qr == SDivRem(a, b)
+                  IN IF IsZeroArr(qr[2]) \/ IsNeg(a) # IsNeg(b) THEN <<qr[1], qr[3]>>
+                     ELSE LET r == SAdd(qr[1], One) IN <<r[1], qr[3] \/ r[2]>>
+SDivEuclid(a, b) == IF a = MinPat /\ b = One THEN <<a, FALSE>>
+                    ELSE LET qr == SDivRem(a, b)
+                         IN IF IsNeg(a) /\ ~IsZeroArr(qr[2])
+                            THEN LET r == IF IsNeg(b) THEN SAdd(qr[1], One) ELSE SSub(qr[1], One) IN <<r[1], qr[3] \/ r[2]>>
+                            ELSE <<qr[1], qr[3]>>
+SRemEuclid(a, b) == LET qr == SDivRem(a, b)
+                        rem == qr[2]
+                    IN IF IsNeg(rem) THEN (IF IsNeg(b) THEN SSub(rem, b)[1] ELSE SAdd(rem, b)[1]) ELSE rem       \* wrapping_sub / wrapping_add
+\* next_multiple_of: <<pattern, the final operator overflowed (panic in debug, wrap in release), an inner operator overflowed (never)>>
+SNextMultipleOf(a, b) == LET rem == SRemEuclid(a, b)
+                         IN IF IsZeroArr(rem) THEN <<a, FALSE, FALSE>>
+                            ELSE IF IsNeg(rem) = IsNeg(b)
+                                 THEN LET d == SSub(b, rem)  r == SAdd(a, d[1]) IN <<r[1], r[2], d[2]>>
+                                 ELSE LET r == SSub(a, rem) IN <<r[1], r[2], FALSE>>
+\* unsigned: div_ceil and next_multiple_of
+UDivCeil(a, b) == LET qr == DivRemUnchecked(a, b) IN IF IsZeroArr(qr[2]) THEN <<qr[1], FALSE>> ELSE UAdd(qr[1], One)
+UNextMultipleOf(a, b) == LET rem == DivRemUnchecked(a, b)[2]
+                         IN IF IsZeroArr(rem) THEN <<a, FALSE, FALSE>>
+                            ELSE LET d == USub(b, rem)  r == UAdd(a, d[1]) IN <<r[1], r[2], d[2]>>
+
+\* ---------------------------------------------------------------------------------------------
 \* counting loops (src/buint/mod.rs)
 RECURSIVE PopD(_)
 PopD(d) == IF d = 0 THEN 0 ELSE (d % 2) + PopD(d \div 2)
